@@ -35,17 +35,23 @@ C(p)  == [k |-> "c", p |-> p, d |-> "", tt |-> ""]
 Mark(k, d, tt) == [k |-> k, p |-> 0, d |-> d, tt |-> tt]           \* "la" <a>, "lz" </a>, "ia" <img alt=", "iz" " />; d = the destination as written in href / src
 
 (* a link label at q: "[", no bracket inside, "]"; its length or 0 *)
+(* backslash escapes: a backslash before an ASCII punctuation character makes it literal (brackets and "!" are the ones that matter
+   here); position i holds an escaped character *)
+Punct == {"[", "]", "!", "\\", "(", ")"}
+RECURSIVE EscapedAt(_)
+EscapedAt(i) == i > 1 /\ txt[i - 1] = "\\" /\ txt[i] \in Punct /\ ~EscapedAt(i - 1)
 LabelLen(q) ==
     IF At(q) # "[" THEN 0
-    ELSE LET S == {j \in (q + 1)..Len(txt) : txt[j] \in {"[", "]"}} IN
+    ELSE LET S == {j \in (q + 1)..Len(txt) : txt[j] \in {"[", "]"} /\ ~EscapedAt(j)} IN
          IF S = {} THEN 0
          ELSE LET j == CHOOSE x \in S : \A y \in S : x <= y IN IF txt[j] = "]" THEN j - q + 1 ELSE 0
 RECURSIVE Squeeze(_)
 Squeeze(sq) == IF sq = << >> THEN << >> ELSE IF Head(sq) \in {" ", "\n"} THEN Squeeze(Tail(sq)) ELSE <<Head(sq)>> \o Squeeze(Tail(sq))
 (* the only defined label is "a", surrounded by any amount of whitespace (labels are compared trimmed, inner whitespace collapsed) *)
 Defined(lab) == Squeeze(lab) \in {<<"a">>, <<"A">>}              \* (and case-folded)
-HasBracket(sq) == \E i \in DOMAIN sq : sq[i] \in {"[", "]"}
+BracketIn(a, b) == \E i \in a..b : txt[i] \in {"[", "]"} /\ ~EscapedAt(i)         \* an unescaped bracket between positions a and b
 
+EA == {"a", "[", "]", "!", "\\"}                   \* backslash escapes next to brackets and exclamation marks
 NA == {"a", "[", "]", "(", ")", "\n"}          \* (a configuration file cannot spell a line end)
 Top == br[Len(br)]
 Pop == SubSeq(br, 1, Len(br) - 1)
@@ -60,7 +66,13 @@ Literal == /\ out' = Append(out, C(pos)) /\ pos' = pos + 1
 
 ScanOther ==
     /\ phase = "scan" /\ pos <= Len(txt) /\ txt[pos] \notin {"[", "]"} /\ ~(txt[pos] = "!" /\ At(pos + 1) = "[")
+    /\ ~(txt[pos] = "\\" /\ At(pos + 1) \in Punct)
     /\ Literal /\ UNCHANGED <<txt, br, phase>>
+(* an escape sequence: the backslash goes, the character is literal text *)
+ScanEscape ==
+    /\ phase = "scan" /\ pos < Len(txt) /\ txt[pos] = "\\" /\ txt[pos + 1] \in Punct
+    /\ out' = Append(out, C(pos + 1)) /\ pos' = pos + 2
+    /\ UNCHANGED <<txt, br, phase>>
 ScanOpen ==
     /\ phase = "scan" /\ pos <= Len(txt) /\ txt[pos] = "["
     /\ br' = Append(br, [idx |-> pos, img |-> FALSE, active |-> TRUE, o |-> Len(out) + 1])
@@ -75,7 +87,7 @@ RefAt(t) ==
     LET n == LabelLen(pos + 1)
         inner == SubSeq(txt, t.idx + 1, pos - 1) IN
     IF n > 2 THEN [lab |-> SubSeq(txt, pos + 2, pos + n - 1), eat |-> n, ok |-> TRUE]
-    ELSE IF ~HasBracket(inner) THEN [lab |-> inner, eat |-> n, ok |-> TRUE]
+    ELSE IF ~BracketIn(t.idx + 1, pos - 1) THEN [lab |-> inner, eat |-> n, ok |-> TRUE]
     ELSE [lab |-> << >>, eat |-> 0, ok |-> FALSE]
 (* an inline destination behind the closing bracket: "(", a run whose parentheses balance (the alphabets hold no space, so there is
    no title), ")".  Position of the closing parenthesis or 0. *)
@@ -132,7 +144,7 @@ ScanCloseNoMatch ==
     /\ br' = Pop /\ Literal /\ UNCHANGED <<txt, phase>>
 Finish == /\ phase = "scan" /\ pos > Len(txt) /\ phase' = "done" /\ UNCHANGED <<txt, pos, br, out>>
 
-RNext == ScanOther \/ ScanOpen \/ ScanImageOpen \/ ScanCloseNone \/ ScanCloseInactive \/ ScanCloseMatch \/ ScanCloseNoMatch \/ Finish
+RNext == ScanOther \/ ScanEscape \/ ScanOpen \/ ScanImageOpen \/ ScanCloseNone \/ ScanCloseInactive \/ ScanCloseMatch \/ ScanCloseNoMatch \/ Finish
 RSpec == RInit /\ [][RNext]_rvars
 
 ---------------------------------------------------------------------------
